@@ -1,7 +1,15 @@
 (* C15 — The layout saved for the systemd service reloads as the same layout.
    Statements only; proofs are in TM.KeyNames (finite facts, vm_compute over
-   the regenerated key table) and TM.RoundtripLemmas. *)
-From TM Require Import Base Json RustOps Mapper Parser Convert Serde LoaderCheck StrLemmas KeyNames RoundtripLemmas LoadedWf.
+   the regenerated key table), TM.RoundtripLemmas (Value level: Serde.to_json,
+   then Parser + Convert) and TM.JsonTextLemmas (text level: the bytes
+   serde_json::to_writer_pretty writes into /etc/totalmapper.json, read back
+   by serde_json::from_reader as load_layout_from_file does — JsonText.v models
+   serde_json's PrettyFormatter/CompactFormatter printer and its reader into
+   Value: whitespace, literals, numbers with the i64/u64/float split, strings
+   with every escape, surrogate pairs and UTF-8 validation, arrays, objects as
+   BTreeMap (sorted, last duplicate wins), the recursion limit 128, trailing
+   characters). *)
+From TM Require Import Base Json RustOps Mapper Parser Convert Serde LoaderCheck StrLemmas KeyNames RoundtripLemmas LoadedWf JsonText JsonTextLemmas.
 From TMGen Require Import KeyTable.
 
 (* Writing a basic layout in the derive(Serialize) form and loading that value
@@ -37,6 +45,101 @@ Print Assumptions C15_loaded_is_wf_basic.
 Theorem C15_saved_layout_reloads : forall (j : json) (L : layout), load j = Ok L -> load (to_json L) = Ok L.
 Proof. exact saved_layout_reloads. Qed.
 Print Assumptions C15_saved_layout_reloads.
+
+(* ---------- the same at the level of the file's TEXT ----------
+
+   save_text L (JsonText.v) is the byte sequence serde_json::to_writer_pretty
+   writes for a keys::Layout: derive(Serialize) emits the struct fields in
+   declaration order (from, to, repeat, absorbing; keys, delay_ms, interval_ms)
+   and PrettyFormatter lays them out with two-space indentation.  load_text t
+   is load_layout_from_file on a file with content t: serde_json::from_reader
+   into a Value (parse_text: None = any serde_json error), then
+   parse_layout_from_json and convert.  The saved bytes reload as the same
+   layout, for every basic layout with wf_basic — in particular for every
+   layout that was itself loaded from a Value or from a text. *)
+Theorem C15_saved_text_reloads : forall L : layout, wf_basic L = true -> load_text (save_text L) = Ok L.
+Proof. exact saved_text_reloads. Qed.
+Print Assumptions C15_saved_text_reloads.
+
+Theorem C15_loaded_then_saved_text_reloads :
+  forall (j : json) (L : layout), load j = Ok L -> load_text (save_text L) = Ok L.
+Proof. exact loaded_then_saved_text_reloads. Qed.
+Print Assumptions C15_loaded_then_saved_text_reloads.
+
+Theorem C15_loaded_text_then_saved_text_reloads :
+  forall (t : list N) (L : layout), load_text t = Ok L -> load_text (save_text L) = Ok L.
+Proof. exact loaded_text_then_saved_text_reloads. Qed.
+Print Assumptions C15_loaded_text_then_saved_text_reloads.
+
+Example C15_saved_text_example :
+  let L := [ mkMapping [58; 30]%N [] (RSpecial [] (-5) 2147483647) [58]%N;
+             mkMapping [42; 56; 16]%N [29; 42; 2]%N (RSpecial [42; 3]%N (-2147483648) 30) [56; 42]%N;
+             mkMapping [1]%N [1]%N RDisabled [] ] in
+  wf_basic L = true
+  /\ firstn 39 (save_text L) = lit "{
+  ""mappings"": [
+    {
+      ""from"": ["
+  /\ parse_text (save_text L) = Some (to_json L)
+  /\ load_text (save_text L) = Ok L.
+Proof. vm_compute. repeat split; reflexivity. Qed.
+
+(* The text layer on its own, for ANY printable value (not only saved layouts):
+   what serde_json's pretty (or compact) printer writes for a tree of values —
+   numbers within i64, strings and keys of Unicode scalar values, nesting below
+   the reader's recursion limit — serde_json's reader reads back as the
+   canonical form of that tree: objects sorted by key, of equal keys the last
+   one kept (canon; the identity on a Value, C15_canonical_value_is_fixed).
+   The reader accepts the same tree under any whitespace-only formatter
+   (C15_text_roundtrip_any_whitespace). *)
+Theorem C15_text_roundtrip_any_value :
+  forall v : json, printable v = true -> (depth v < 128)%nat ->
+    parse_text (print_pretty v) = Some (canon v) /\ parse_text (print_compact v) = Some (canon v).
+Proof. intros v Hp Hd. split; [exact (parse_print_pretty v Hp Hd)|exact (parse_print_compact v Hp Hd)]. Qed.
+Print Assumptions C15_text_roundtrip_any_value.
+
+Theorem C15_text_roundtrip_any_whitespace :
+  forall (sp : nat -> list N) (colon : list N),
+    (forall k, forallb is_ws (sp k) = true) -> forallb is_ws colon = true ->
+    forall v : json, printable v = true -> (depth v < 128)%nat ->
+      parse_text (print_at sp colon 0 v) = Some (canon v).
+Proof. exact parse_print_at. Qed.
+Print Assumptions C15_text_roundtrip_any_whitespace.
+
+Theorem C15_canonical_value_is_fixed :
+  (forall v : json, canonical v = true -> canon v = v)
+  /\ (forall L : layout, canonical (to_json L) = true /\ canon (ser_layout L) = to_json L).
+Proof.
+  split; [exact canon_canonical|]. intro L. split; [exact (canonical_to_json L)|exact (canon_ser_layout L)].
+Qed.
+Print Assumptions C15_canonical_value_is_fixed.
+
+Example C15_text_roundtrip_example :
+  (* a string with a quote, a backslash, control characters, DEL, a 2-byte and a 4-byte scalar; a
+     negative number and the i64 limits; empty containers; keys out of order with a duplicate *)
+  let v := JObj [ (lit "s", JStr [120; 34; 92; 8; 10; 1; 31; 127; 233; 128512]%N);
+                  (lit "n", JArr [JNum (Some (-5)%Z); JNum (Some 9223372036854775807%Z); JNum (Some (-9223372036854775808)%Z)]);
+                  (lit "e", JArr [JArr []; JObj []; JNull; JBool true; JBool false]);
+                  (lit "n", JNum (Some 0%Z)) ] in
+  printable v = true /\ depth v = 3%nat
+  /\ print_compact v = lit "{""s"":""x\""\\\b\n\u0001\u001f" ++ [127; 195; 169; 240; 159; 152; 128]%N
+                       ++ lit """,""n"":[-5,9223372036854775807,-9223372036854775808],""e"":[[],{},null,true,false],""n"":0}"
+  /\ parse_text (print_pretty v)
+     = Some (JObj [ (lit "e", JArr [JArr []; JObj []; JNull; JBool true; JBool false]);
+                    (lit "n", JNum (Some 0%Z));
+                    (lit "s", JStr [120; 34; 92; 8; 10; 1; 31; 127; 233; 128512]%N) ])
+  /\ parse_text (print_compact v) = parse_text (print_pretty v)
+  (* the reader beyond the printer's language: escapes, a surrogate pair, a lone surrogate, the
+     number classes, the recursion limit, trailing characters *)
+  /\ parse_text (lit " [ ""é😀\/"" , 1.5e3 , 18446744073709551615 , -0 ] ")
+     = Some (JArr [JStr [233; 128512; 47]%N; JNum None; JNum None; JNum None])
+  /\ parse_text (lit """\ud83d""") = None
+  /\ parse_text (lit "1e999") = None
+  /\ parse_text (lit "[1,]") = None
+  /\ parse_text (lit "null x") = None
+  /\ parse_text (List.repeat 91%N 127 ++ List.repeat 93%N 127) <> None
+  /\ parse_text (List.repeat 91%N 128 ++ List.repeat 93%N 128) = None.
+Proof. vm_compute. repeat split; try reflexivity. discriminate. Qed.
 
 (* Every key name the tool can write is read back as the same key, for all key
    codes of the regenerated table (484 at the pinned commit): the serde name
